@@ -32,6 +32,13 @@ def _helper_of(P, f, call):
     mod = f.module
     if isinstance(fn, ast.Name) and _is_private(fn.id) and fn.id in mod.functions:
         return mod.functions[fn.id], None
+    if isinstance(fn, ast.Name) and _is_private(fn.id) and fn.id in mod.imports:
+        # a private helper shared between sibling modules (`from .patterns import _group_unseen_by_key`)
+        dotted = mod.imports[fn.id]
+        modname, _, fname = dotted.rpartition(".")
+        for rel, m2 in P.modules.items():
+            if m2.modname == modname and fname in m2.functions:
+                return m2.functions[fname], None
     if isinstance(fn, ast.Attribute) and _is_private(fn.attr) and isinstance(fn.value, ast.Name):
         base = fn.value.id
         if f.cls is not None and (base in ("self", "cls") or base == f.cls.name):
